@@ -225,6 +225,47 @@ def svecsInvariantOk (T : DTables np nf ns nsv) (M : SymMaps np ns nsv) : Bool :
   (List.finRange np).all (fun i => (List.finRange ns).all fun k => (List.finRange np).all fun j =>
       decide (T.s2p (M.kap i k) = T.p2s (M.pi j)) == decide (T.s2p k = T.p2s j))
 
+/-! ### both loop forms of the kernel and the q-point batch
+
+`dym_get_dynamical_matrix_at_q(use_openmp=1)` runs `get_dynmat_ij(ij / num_patom, ij % num_patom)` for
+`ij < num_patom²`; `dym_dynamical_matrices_with_dd_openmp_over_qpoints` (no NAC) writes the matrix of q-point `n`
+at `dynamical_matrices + adrs_shift * n`, `adrs_shift = num_patom² · 9`, element `(3i+a)·3·num_patom + 3j+b`. -/
+
+/-- the block the `ij`-th iteration of the OpenMP loop writes -/
+def rawByIJ (T : DTables np nf ns nsv) (ph : Fin nsv → Cx α) (mm : Fin np → Fin np → α)
+    (fc : Fin nf → Fin ns → Fin 3 → Fin 3 → α) (hnp : 0 < np) (ij : Fin (np * np)) (a b : Fin 3) : Cx α :=
+  dynmatRawC T ph mm fc ⟨ij.1 / np, Nat.div_lt_of_lt_mul ij.2⟩ a ⟨ij.1 % np, Nat.mod_lt _ hnp⟩ b
+
+/-- flat index of element `(i,a),(j,b)` of the matrix of q-point `n` in the output buffer -/
+def flatIdx (np : Nat) (n : Nat) (i : Fin np) (a : Fin 3) (j : Fin np) (b : Fin 3) : Nat :=
+  n * (np * np * 9) + ((i.1 * 3 + a.1) * (np * 3) + (j.1 * 3 + b.1))
+
+/-- the output buffer of the q-point loop as a function of the flat index (0 outside the buffer) -/
+def dynmatBatchFlat (T : DTables np nf ns nsv) {nq : Nat} (phs : Fin nq → Fin nsv → Cx α)
+    (mm : Fin np → Fin np → α) (fc : Fin nf → Fin ns → Fin 3 → Fin 3 → α) (idx : Nat) : Cx α :=
+  let n := idx / (np * np * 9)
+  let r := idx % (np * np * 9)
+  let row := r / (np * 3)
+  let col := r % (np * 3)
+  if h : n < nq ∧ row / 3 < np ∧ col / 3 < np then
+    dynmatC T (phs ⟨n, h.1⟩) mm fc ⟨row / 3, h.2.1⟩ ⟨row % 3, Nat.mod_lt _ (by decide)⟩
+      ⟨col / 3, h.2.2⟩ ⟨col % 3, Nat.mod_lt _ (by decide)⟩
+  else 0
+
+/-! ### frequencies (`QpointsPhonon._run`: `np.sqrt(np.abs(eigvals)) * np.sign(eigvals) * factor`)
+
+The eigenvalues (LAPACK) and the square root are parameters. -/
+
+/-- `np.sign` -/
+def signR {β : Type} [LT β] [DecidableLT β] [OfNat β 0] [OfNat β 1] [Neg β] (x : β) : β :=
+  if 0 < x then 1 else if x < 0 then -1 else 0
+/-- `np.abs` -/
+def absR {β : Type} [LT β] [DecidableLT β] [OfNat β 0] [Neg β] (x : β) : β := if x < 0 then -x else x
+/-- frequency of an eigenvalue; imaginary modes are reported as negative numbers -/
+def frequency {β : Type} [LT β] [DecidableLT β] [OfNat β 0] [OfNat β 1] [Neg β] [Mul β]
+    (sqrt : β → β) (factor : β) (ev : β) : β :=
+  sqrt (absR ev) * signR ev * factor
+
 /-! ### staged evaluators used by the driver (proved equal to the model in `Props/C02`) -/
 
 def dynmatCF (T : DTables np nf ns nsv) (ph : Fin nsv → Cx α) (mm : Fin np → Fin np → α)
